@@ -10,8 +10,15 @@ import (
 func main() {
 	noOver := pmlib.LoadConf("paths:\n  p:\n    overridePublisher: no\n")
 	over := pmlib.LoadConf("paths:\n  p:\n    overridePublisher: yes\n")
-	bg := []string{"dumper.go"}
+	bg := []string{"dumper.go", "stream/offline_sub_stream_track.go"}
+	always := pmlib.LoadConf("paths:\n  p:\n    overridePublisher: yes\n    alwaysAvailable: yes\n    alwaysAvailableTracks:\n" +
+		"    - codec: G711\n      sampleRate: 8000\n      channelCount: 1\n      muLaw: false\n")
 	scn := []*vexplore.Scenario{
+		{
+			Name: "always-available-override", Desc: "always-available path (one stream outlives its publishers; SubStream.WriteUnit's stale-substream guard): A attached with reader R1, then A writes 2 units while B overrides (2 writes) and R2 attaches",
+			Body: pmlib.PubReadBodyOpt(always, []pmlib.PubSpec{{ID: "A", Writes: 2, Stay: true, Pre: true}, {ID: "B", Writes: 2}}, []pmlib.RdrSpec{{ID: "R1", Pre: true}, {ID: "R2"}}, false, true),
+			Check: pmlib.CheckPublishersOpt(true, true), QuickBound: 1, ThoroughBound: 2, Horizon: 20000, Bg: bg,
+		},
 		{
 			Name: "two-publishers-no-override", Desc: "A attached with reader R, then concurrently: A writes 2 units and leaves, B tries to publish (1 write), reader Q attaches; overridePublisher off",
 			Body: pmlib.PubReadBody(noOver, []pmlib.PubSpec{{ID: "A", Writes: 2, Pre: true}, {ID: "B", Writes: 1}}, []pmlib.RdrSpec{{ID: "R", Pre: true}, {ID: "Q"}}, false),
@@ -30,7 +37,7 @@ func main() {
 	}
 	vexplore.Main("C16", scn, []string{
 		"publishers/readers are fake sessions calling the real pathManager API with the call shapes of the protocol servers",
-		"non-alwaysAvailable paths (one stream object per publisher); the alwaysAvailable stale-substream guard is covered by scenario notes in DESIGN.md",
+		"scenario always-available-override covers the stale-substream guard of SubStream.WriteUnit (one stream object outliving its publishers); its offline sub stream timers are background",
 		"'afterwards' is read as: a unit whose WriteUnit began after the replacement was observable never reaches a reader attached after it",
 	})
 }
